@@ -349,7 +349,7 @@ func init() {
 			if err := json.Unmarshal(raw, &w); err != nil {
 				return err.Error()
 			}
-			o, _ := c06Run(vsched.Config{Prefix: w.Prefix}, w.Label)
+			o, _ := c06Run(core.CfgFromReplay(raw), w.Label)
 			if v := c06Judge(w.Label, o); v != nil {
 				return v.Signature + ": " + v.What
 			}
